@@ -26,7 +26,9 @@ import numpy as _np
 from ..core import Undecided
 from ..forks import Fork
 from ..ratfun import Rat, SAtom
-from ..symex import Func, PyRaise, to_rat
+from fractions import Fraction
+
+from ..symex import Func, PyRaise, Rec, to_rat
 from ..namodel import NA, objarr
 from ..spacemodel import (SMHooks, SMInterp, NSpace, NElem, NotAnElement,
                           flat)
@@ -69,6 +71,15 @@ class H12(SMHooks):
         SMHooks.__init__(self)
         self.signs = Signs({EPS})
         self.regime = regime
+
+    def np_func(self, I, name):
+        if name == 'finfo':
+            # machine constants are absolute numbers, independent of the
+            # scale of the data
+            c = Rat.const(Fraction(1, 2 ** 52))
+            return lambda *a, **k: Rec('finfo', eps=c, resolution=c * 4503,
+                                       tiny=c * c * c)
+        return SMHooks.np_func(self, I, name)
 
     def on_decide(self, interp, cond, node):
         k = cond.key.split(':')[0]
